@@ -682,10 +682,39 @@ class RC:
         self.bump('conditionals')
         if rec is not None and not (self.assignable(tb, rec) and self.assignable(fb, rec)):
             self.bump('conditional_recorded_type_not_upper_bound')
-        if self.infer and t is None:
-            # no expected type: the type is the join of the branches; use the recorded type if it is an upper bound
-            return rec
+        if self.infer and t is None and rec is not None and not (self.assignable(tb, rec) and self.assignable(fb, rec)):
+            # no expected type and an inferred branch type no longer fits the recorded type: the compiler types the
+            # conditional with the join of the branches (a use-site projection where the arguments differ)
+            j = self.join(tb, fb)
+            self.bump('conditional_join_used' if j is not None else 'no_judgement')
+            return j if j is not None else UNK
         return rec
+
+    def join(self, a, b, depth=0):
+        """least upper bound of two branch types where it is simple to state; None = no judgement."""
+        if a in (None, UNK) or b in (None, UNK) or depth > 4:
+            return None
+        if a == BOT:
+            return b
+        if b == BOT:
+            return a
+        ua, ub = self.upper(a), self.upper(b)
+        if self.R.sub(ua, ub):
+            return ub
+        if self.R.sub(ub, ua):
+            return ua
+        if ua[0] == 'i' and ub[0] == 'i' and ua[1] == ub[1] and len(ua[2]) == len(ub[2]):
+            args = []
+            for x, y in zip(ua[2], ub[2]):
+                if x == y:
+                    args.append(x)
+                elif rm.is_proj(x) or rm.is_proj(y):
+                    return None
+                else:
+                    j = self.join(x, y, depth + 1)
+                    args.append(('p', 'out', j) if (j is not None and not rm.is_proj(j) and j != TOP) else STAR)
+            return ('i', ua[1], tuple(args))
+        return None
 
     def ty_Block(self, e, env, path, exp):
         return self.block(e, env, path, exp)
